@@ -306,10 +306,17 @@ def check_open(case):
     level = pid[4:7]
     verdict = rec_product_id(pid)[1]
     scan = case.get("scan")
+    # acquisition dates incl. the days around New Year (ISO week-year differs), leap days, month ends
+    special = [dt.date(2014, 12, 29), dt.date(2016, 1, 1), dt.date(2019, 12, 31), dt.date(2020, 2, 29), dt.date(2021, 1, 3),
+               dt.date(2024, 12, 30), dt.date(2027, 1, 1), dt.date(2032, 2, 29), dt.date(2049, 12, 31), dt.date(2014, 5, 24)]
+    rng = random.Random(case["index"])
+    date = special[case["index"] % len(special)] if case["index"] % 3 else dt.date(2014, 1, 1) + dt.timedelta(days=rng.randrange(13149))
+    orbit, frame = rng.randrange(100000), rng.randrange(10000)
     spec = common.spec_from(
         {
             "level": level if level != "1.0" else "1.1",
             "product_id": pid,
+            "scene_id": f"ALOS2{orbit:05d}{frame:04d}-{date:%y%m%d}",
             "images": [{"lines": 1, "pixels": 1, "pol": "HH", "scan": scan}, {"lines": 1, "pixels": 1, "pol": "HV", "scan": scan}],
             "vseed": case["index"],
         }
@@ -325,7 +332,7 @@ def check_open(case):
             if attrs.get(k) != v:
                 out.append(harness.disc("mis-decoded", "open_alos2", {k: v}, {k: attrs.get(k)}, string=pid))
         sattrs = dict(tree["summary/scene_specification"].attrs)
-        want = {"mission_name": "ALOS2", "orbit_accumulation": 1441, "scene_frame": 740, "date": "2014-08-29"}
+        want = {"mission_name": "ALOS2", "orbit_accumulation": orbit, "scene_frame": frame, "date": date.isoformat()}
         for k, v in want.items():
             if sattrs.get(k) != v:
                 out.append(harness.disc("mis-decoded", "open_alos2", {k: v}, {k: sattrs.get(k)}, string=spec["scene_id"]))
